@@ -717,6 +717,8 @@ def value_attr(I, obj, name, node=None):
         return ExtFunc(obj.name + "." + name)
     if isinstance(obj, SymV) and name in ("item",):
         return ExtFunc("scalar.item", bound=obj)
+    if isinstance(obj, SymV) and obj.ty == "name" and name == "lower":
+        return ExtFunc("str.lower", bound=obj)
     raise EngineLimit(f"attribute {name} of {obj!r}")
 
 
@@ -907,6 +909,11 @@ def call_extclass(I, c, args, kwargs, node=None):
         return t if isinstance(t, bool) else mk(t, "bool")
     if n == "builtins.str":
         v = args[0] if args else ""
+        if isinstance(v, SymV) and v.ty == "name":
+            # str(x) of a string is x itself; of anything else (run-time type tag not str) some other string: ASSUMED
+            if v.pytag is None:
+                return v
+            return SymV(z3.If(v.pytag == TAG_STR, v.t, STR_OF(v.t)), "name")
         if isinstance(v, (str, int, float, bool, tuple)) or v is None:
             if isinstance(v, tuple) and any(is_sym(x) for x in v):
                 if len(v) == 2 and all(kind_of(x) == "int" for x in v):
@@ -1308,6 +1315,8 @@ def _m_sorted(I, b, a, kw, node):
 
 # ---- strings with symbolic parts: f-strings and concatenation are ASSUMED to be functions of their parts
 STR_CONCAT = z3.Function("str_concat", z3.IntSort(), z3.IntSort(), z3.IntSort())
+STR_OF = z3.Function("str_of_non_string", z3.IntSort(), z3.IntSort())
+STR_LOWER = z3.Function("str_lower", z3.IntSort(), z3.IntSort())
 STR_FMT1 = z3.Function("str_format1", z3.IntSort(), z3.IntSort(), z3.IntSort())     # (template, part) -> string
 STR_FMTI = z3.Function("str_format_int", z3.IntSort(), z3.IntSort(), z3.IntSort())  # (template, integer) -> string
 
@@ -1728,6 +1737,8 @@ def _m_sremove(I, b, a, kw, node):
 
 @ext("str.lower")
 def _m_lower(I, b, a, kw, node):
+    if isinstance(b, SymV) and b.ty == "name":
+        return SymV(STR_LOWER(b.t), "name")          # ASSUMED: a function of the string
     return b.lower()
 
 
